@@ -27,7 +27,8 @@ def c05_suites(tier):
 
 
 def c06_suites(tier):
-    return [system.StartStopSuite(), system.RandomSessionSuite(), system.StatementLevelSuite(), glue.GlueSuite(), system.QueuedStartSuite()]
+    return [system.StartStopSuite(), system.RandomSessionSuite(), system.StatementLevelSuite(), glue.GlueSuite(), system.QueuedStartSuite(),
+            system.SecondTouchSuite()]
 
 
 def c07_suites(tier):
